@@ -230,6 +230,7 @@ type World struct {
 	HTTPPolicy  func(r *HTTPReqInfo) HTTPVerdict
 	FramePolicy func(c *TCPConn, toServer bool, n int, data []byte) SegVerdict
 	OnSegment   func(c *TCPConn, toServer bool, n int, data []byte)
+	OnDeliver   func(c *TCPConn, toServer bool, n int, data []byte)
 	OnFatal     func(g *G, msg string)
 	Log         func(format string, a ...interface{})
 	KeysPerm    bool // permute map iteration order (seeded) instead of plain sorted order
